@@ -158,6 +158,24 @@ CLAIMED = {
        "error of the rule on non-polynomial integrands are numerical-analysis bounds: bounded tier only. One known finding (SoftmaxLikelihood "
        "legacy transposition for square inputs) is listed in known_findings.json.",
   technique="contract-based deductive verification: AST-extracted real functions, elementwise tensor domain with binder-free sums, modular callee contracts, z3 + sympy CAS"),
+ "C05": dict(
+  category="other",
+  text="Proof tier (counted): the real Kernel.covar_dist / sq_dist and the forward methods of RBF, Matern (nu 1/2, 3/2, 5/2), RQ, Periodic, "
+       "Cosine, Linear, Polynomial (power 1..3), Constant, Scale, Additive, Product kernels are executed symbolically with symbolic n1, n2, d, "
+       "batch size, inputs and (ARD) hyper-parameters and z3 discharges, for the entry (b, i, j): value == documented covariance function "
+       "(sums over the input dimension as binder-free sum atoms normalised by linearity), exact output shape, diag branch == the diagonal; "
+       "Kernel.__add__ / __mul__ with their flattening (operands leaf / sum / product, all nine combinations) evaluate to the sum / product "
+       "of the operands' values; the polynomial factor of the piecewise polynomial kernel (q = 0..3) equals Rasmussen & Williams eq. 4.21. "
+       "Bounded tier (not counted): a float64 oracle sweep over EVERY kernel exported by gpytorch.kernels (CPU) against independent "
+       "re-implementations of the documented formulas, and the derivative kernels (RBF-grad, Matern-5/2-grad, polynomial-grad powers 1..4, "
+       "RBF-grad-grad) against autograd derivatives of the base kernel in the interleaved layout, n1 != n2, d in {1,2,3}, batch shapes () / (2,).",
+  design_ref="DESIGN.md section 5, C05",
+  note="Kernels outside the proof list (spectral, arc, cylindrical, Hamming, KL, Newton-Girard, structure, index / multitask / LCM, RFF, grid, "
+       "inducing-point and the derivative kernels) are covered by the bounded tier only. Hyper-parameter getters are taken as arbitrary "
+       "positive tensors (their relation to the raw parameters is C17). exp / sqrt / cos / sin / pow are uninterpreted with ground axioms; floats "
+       "are reals. MultitaskKernel's docstring formula is read up to the row/column permutation of the interleaved layout. Known findings "
+       "(distributional kernels' lengthscale, HammingIMQ batching, a linear_operator exception) are listed in known_findings.json.",
+  technique="contract-based deductive verification: AST-extracted real functions, elementwise tensor domain with binder-free sums and reciprocal atoms, z3 + sympy CAS"),
 }
 REASON_NOT_BUILT = "contracts for this property are not built yet in this revision (see DESIGN.md section 9 build order); not claimed until its obligations are discharged by the checker"
 
